@@ -217,6 +217,120 @@ fn bisim_cfgs(ver: Ver, thorough: bool, opts: u8) -> (EpCfg, EpCfg) {
     (mk(None), mk(Some(ver)))
 }
 
+/// Auto-detection with a restored store: `restore_packets()` is the one call that can precede the first
+/// CONNECT. An undetermined server and a fixed-version server get the same export (entries of both
+/// protocol versions), the same CONNECT, CONNACK and follow-up traffic; every step must give equal events
+/// and, once the version is adopted, equal state. Exhaustive over exports of <= 2 entries x adopting
+/// version x Session Present x follow-up script.
+fn restored_bisim(rep: &mut Report) {
+    use crate::bridge;
+    use crate::conn::{ConnBox, Ev};
+    use crate::report::Violation;
+    use crate::util::{debug_diff, guarded};
+    use mqtt_protocol_core::mqtt::packet::{GenericPacket, GenericStorePacket};
+    use serde_json::json;
+    // (kind: 1 = PUBLISH QoS 1, 2 = PUBLISH QoS 2, 3 = PUBREL; id; version of the entry)
+    let kinds: Vec<(u8, u32, Ver)> = vec![(1, 1, Ver::V4), (1, 1, Ver::V5), (2, 2, Ver::V4), (2, 2, Ver::V5), (3, 3, Ver::V4), (3, 3, Ver::V5)];
+    let mut exports: Vec<Vec<usize>> = vec![vec![]];
+    for a in 0..kinds.len() {
+        exports.push(vec![a]);
+        for b in 0..kinds.len() {
+            if kinds[a].1 != kinds[b].1 {
+                exports.push(vec![a, b]);
+            }
+        }
+    }
+    let mut n = 0u64;
+    let mut steps = 0u64;
+    for ver in [Ver::V4, Ver::V5] {
+        for ex in &exports {
+            for sp in [true, false] {
+                n += 1;
+                let kinds2 = kinds.clone();
+                let ex2 = ex.clone();
+                let hist_head = format!("restore_packets({:?}) (kind 1/2 = PUBLISH QoS, 3 = PUBREL; id; version) into Server(Undetermined) and Server({ver:?}); recv CONNECT {ver:?} persistent; send CONNACK sp={sp}", ex.iter().map(|i| kinds[*i]).collect::<Vec<_>>());
+                let r = guarded(move || -> Result<u64, (String, String)> {
+                    let mk = |k: (u8, u32, Ver)| -> GenericStorePacket<u16> {
+                        let p: GenericPacket<u16> = if k.0 == 3 {
+                            bridge::build::<u16>(&AP::Ack { ver: k.2, kind: AckKind::Pubrel, pid: k.1, code: None, props: None }).ok().unwrap()
+                        } else {
+                            bridge::build::<u16>(&AP::Publish { ver: k.2, dup: true, qos: k.0, retain: false, topic: b"a".to_vec(), pid: Some(k.1), props: vec![], payload: b"p".to_vec() }).ok().unwrap()
+                        };
+                        match p {
+                            GenericPacket::V3_1_1Publish(x) => GenericStorePacket::V3_1_1Publish(x),
+                            GenericPacket::V5_0Publish(x) => GenericStorePacket::V5_0Publish(x),
+                            GenericPacket::V3_1_1Pubrel(x) => GenericStorePacket::V3_1_1Pubrel(x),
+                            GenericPacket::V5_0Pubrel(x) => GenericStorePacket::V5_0Pubrel(x),
+                            _ => unreachable!(),
+                        }
+                    };
+                    let mut u = ConnBox::<u16>::new(RoleK::Server, None);
+                    let mut f = ConnBox::<u16>::new(RoleK::Server, Some(ver));
+                    u.restore_packets(ex2.iter().map(|i| mk(kinds2[*i])).collect());
+                    f.restore_packets(ex2.iter().map(|i| mk(kinds2[*i])).collect());
+                    let mut done = 0u64;
+                    let mut cmp = |what: String, lu: Vec<Vec<Ev>>, lf: Vec<Vec<Ev>>, u: &ConnBox<u16>, f: &ConnBox<u16>| -> Result<(), (String, String)> {
+                        done += 1;
+                        if lu != lf {
+                            return Err((format!("events|{}", what.split(' ').take(2).collect::<Vec<_>>().join(" ")), format!("at '{what}': undetermined {lu:?} vs fixed {lf:?}")));
+                        }
+                        let (su, sf) = (u.snap(), f.snap());
+                        if su != sf {
+                            let (names, text) = debug_diff(&su, &sf);
+                            return Err((format!("state|{}", names.join("+")), format!("after '{what}' the auto-detecting server differs from the fixed-version one in {names:?}: {text}")));
+                        }
+                        Ok(())
+                    };
+                    let connect = rc::encode(&ConnProf::basic(false).ap(ver), 2);
+                    let (lu, _) = u.recv_all(&connect);
+                    let (lf, _) = f.recv_all(&connect);
+                    cmp("recv CONNECT".into(), lu, lf, &u, &f)?;
+                    let ack = AckProf::basic(sp).ap(ver);
+                    let lu = u.send(bridge::build::<u16>(&ack).ok().unwrap());
+                    let lf = f.send(bridge::build::<u16>(&ack).ok().unwrap());
+                    cmp(format!("send CONNACK sp={sp}"), vec![lu], vec![lf], &u, &f)?;
+                    // the peer acknowledges whatever may have been retransmitted, then the application publishes
+                    for (kind, id) in [(AckKind::Puback, 1u32), (AckKind::Pubrec, 2), (AckKind::Pubcomp, 2), (AckKind::Pubcomp, 3)] {
+                        let fr = rc::encode(&AP::Ack { ver, kind, pid: id, code: None, props: None }, 2);
+                        // a protocol error closes the transport: both sides stop there alike
+                        let (lu, _) = u.recv_all(&fr);
+                        let (lf, _) = f.recv_all(&fr);
+                        let closed = lf.iter().flatten().any(|e| matches!(e, Ev::Close));
+                        cmp(format!("recv {} id {id}", kind.name()), lu, lf, &u, &f)?;
+                        if closed {
+                            let lu = u.notify_closed();
+                            let lf = f.notify_closed();
+                            cmp("notify_closed()".into(), vec![lu], vec![lf], &u, &f)?;
+                            return Ok(done);
+                        }
+                    }
+                    for q in [1u8, 2, 1] {
+                        let (iu, jf) = (u.acquire(), f.acquire());
+                        if iu != jf {
+                            return Err(("acquire".into(), format!("acquire_packet_id(): undetermined {iu:?} vs fixed {jf:?}")));
+                        }
+                        let Ok(id) = iu else { break };
+                        let ap = AP::Publish { ver, dup: false, qos: q, retain: false, topic: b"a".to_vec(), pid: Some(id), props: vec![], payload: b"p".to_vec() };
+                        let lu = u.send(bridge::build::<u16>(&ap).ok().unwrap());
+                        let lf = f.send(bridge::build::<u16>(&ap).ok().unwrap());
+                        cmp(format!("send PUBLISH q{q} id {id}"), vec![lu], vec![lf], &u, &f)?;
+                    }
+                    Ok(done)
+                });
+                let history = vec![json!(hist_head)];
+                match r {
+                    Err(m) => rep.violation(Violation { rule: "c17.bisim-restored".into(), sig: format!("c17.bisim-restored|panic|{}|v{}", crate::util::panic_sig(&m), ver.level()), detail: format!("panic while driving an auto-detecting server with a restored store in lock-step with a fixed-version server: {m}"), config: "c17 auto-detection with a restored store".into(), history }),
+                    Ok(Err((sig, text))) => rep.violation(Violation { rule: "c17.bisim-restored".into(), sig: format!("c17.bisim-restored|{sig}|v{}", ver.level()), detail: format!("after adopting the version the auto-detecting server must behave exactly like a server created with it; {text}"), config: "c17 auto-detection with a restored store".into(), history }),
+                    Ok(Ok(d)) => steps += d,
+                }
+            }
+        }
+    }
+    rep.count("c17.bisim-restored-scripts", n);
+    rep.count("c17.bisim-restored-steps", steps);
+    rep.add_cov("traces_validated_against_impl", n);
+}
+
 pub fn run(rep: &mut Report) {
     let thorough = rep.thorough();
     for cfg in matrix_configs(thorough) {
@@ -231,6 +345,8 @@ pub fn run(rep: &mut Report) {
         let mut ex = Explorer::new(&name, lim, rep);
         ex.run(w);
     }
+    restored_bisim(rep);
+    rep.floor("c17.bisim-restored-steps", 500);
     for f in ["c17.forbidden-direction", "c17.reserved-type", "c17.undetermined-non-connect", "c17.undetermined-adopts", "c17.undetermined-rejects-level", "c17.connack-on-established", "c17.connect-on-established", "c17.bisim-adopted-step", "c17.version-adopted"] {
         rep.floor(f, 1);
     }
